@@ -23,6 +23,9 @@ FailC == [ok |-> FALSE, n |-> 0, d |-> 1, kind |-> "none"]
 OkNum(kind, n, d) == [ok |-> TRUE, n |-> n, d |-> d, kind |-> kind]
 Textual(x) == x.k \in {"str", "bytes"}
 Falsy(x) == x.k = "none" \/ (x.k \in {"int", "bool", "float", "dec"} /\ x.n = 0) \/ (Sized(x) /\ SizeOf(x) = 0)
+\* `not data` after _from_byte_like: a text is judged by its decoded form (fx.empty: the decoded text is empty; undecodable bytes
+\* are dropped by decode(errors="ignore") unless no_data_loss is set)
+FalsyD(x, fx) == IF x.k \in {"str", "bytes"} THEN fx.empty ELSE Falsy(x)
 Modelled(x) == x.k \in {"none", "bool", "int", "float", "dec", "str", "bytes"}
                \/ (x.k \in {"list", "tuple", "set"} /\ Len(x.items) <= 2 /\ \A y \in 1..Len(x.items) : x.items[y].k \in {"none", "bool", "int", "float", "dec", "str", "bytes"})
 \* truncation toward zero of n/d
@@ -49,7 +52,7 @@ ToInt(x0, fx0, ne, ndl) ==
   ELSE LET a == AttemptFrom(x0, fx0, ne, ndl) IN
     IF ~a.ok \/ ~DecodeOk(a.x, a.fx, ndl) THEN FailC
     ELSE LET x == a.x  fx == a.fx IN
-      IF Falsy(x) THEN OkNum("int", 0, 1)                                                 \* elif not data: return 0
+      IF FalsyD(x, fx) THEN OkNum("int", 0, 1)                                                 \* elif not data: return 0
       ELSE IF x.k \in {"int", "bool"} THEN OkNum("int", x.n, 1)
       ELSE IF Textual(x) /\ fx.word = "false" THEN OkNum("int", 0, 1)
       ELSE IF Textual(x) /\ fx.word = "true" THEN OkNum("int", 1, 1)
@@ -65,7 +68,7 @@ ToFloat(x0, fx0, ne, ndl) ==
   ELSE LET a == AttemptFrom(x0, fx0, ne, ndl) IN
     IF ~a.ok \/ ~DecodeOk(a.x, a.fx, ndl) THEN FailC
     ELSE LET x == a.x  fx == a.fx IN
-      IF Falsy(x) THEN OkNum("float", 0, 1)
+      IF FalsyD(x, fx) THEN OkNum("float", 0, 1)
       ELSE IF Numeric(x) THEN OkNum("float", x.n, x.d)
       ELSE IF Textual(x) /\ fx.numlit THEN OkNum("float", fx.n, fx.d)
       ELSE FailC
